@@ -422,6 +422,7 @@ Inductive obs :=
 | BSel (r : list (Z * list exemplar))
 | BIter (r : list (Z * exemplar))
 | BDump (ni : Z) (slots : list slot) (ix : list (Z * (Z * Z)))
+| BErrs (l : list verr)          (* head appender entry points: the errors reported, in order *)
 | BPanic | BHang | BStuck.
 
 Definition add_obs (a : add_res) : obs :=
@@ -721,3 +722,115 @@ Fixpoint sim_run (st : state) (r : rstate) (ops : list op) : bool :=
 (* the pointer-level state reached by a history *)
 Definition exec (st : state) (ops : list op) : res state :=
   fold_left (fun acc o => st <- acc ;; '(st', _) <- step st o ;; Ok st') ops (Ok st).
+
+(* ------------------------------------------------------------------ head appender entry points
+   tsdb/head_append.go headAppender.AppendExemplar + Commit, tsdb/head_append_v2.go
+   headAppenderV2.Append(... AOptions{Exemplars}) -> appendExemplars + Commit (commitExemplars):
+   every exemplar is first normalised with Labels.WithoutEmpty() ([without_empty]: labels whose
+   value is empty are dropped BEFORE validation, so they neither count towards the 128-rune
+   limit nor distinguish a duplicate, and are not stored), then validated against the store as it
+   is before the commit (duplicates and "disabled" are swallowed silently, any other error is
+   reported and the exemplar skipped), and at Commit the accepted ones are added in order with
+   AddExemplar, whose errors are swallowed. Both entry points have the same semantics; [v2] only
+   records which one the harness drove. The id and hash of the normalised label set are oracles
+   (tabulated by the harness with labels.WithoutEmpty called directly). *)
+Definition without_empty (e : exemplar) (o : Z * Z) : exemplar :=
+  mkEx (fst o) (filter (fun p => negb (snd p =? 0)) (e_lens e)) (snd o) (e_val e) (e_ts e) (e_hasts e).
+
+Inductive hop :=
+| HPlain (o : op)
+| HHead (v2 : bool) (sid : Z) (es : list (exemplar * (Z * Z))).
+
+(* split by the outcome of validation: (to commit, errors reported) *)
+Definition head_sort (v : verr) (e : exemplar) (r : list exemplar * list verr) : list exemplar * list verr :=
+  match v with
+  | VOk => (e :: fst r, snd r)
+  | VDup | VDisabled => r
+  | _ => (fst r, v :: snd r)
+  end.
+
+Fixpoint head_validate (st : state) (sid : Z) (es : list exemplar) : res (list exemplar * list verr) :=
+  match es with
+  | [] => Ok ([], [])
+  | e :: t => v <- validate_op st sid e ;; r <- head_validate st sid t ;; Ok (head_sort v e r)
+  end.
+Fixpoint head_commit (st : state) (sid : Z) (es : list exemplar) : res state :=
+  match es with
+  | [] => Ok st
+  | e :: t => '(st', _) <- add st sid e ;; head_commit st' sid t
+  end.
+Definition hstep (st : state) (h : hop) : res (state * obs) :=
+  match h with
+  | HPlain o => step st o
+  | HHead _ sid es =>
+      '(p, errs) <- head_validate st sid (map (fun x => without_empty (fst x) (snd x)) es) ;;
+      st' <- head_commit st sid p ;; Ok (st', BErrs errs)
+  end.
+Fixpoint hrun (st : state) (ops : list hop) : list obs :=
+  match ops with
+  | [] => []
+  | o :: t =>
+      match hstep st o with
+      | Ok (st', b) => b :: hrun st' t
+      | Panic => [BPanic]
+      | Fuel => [BHang]
+      | Stuck => [BStuck]
+      end
+  end.
+
+(* ring level *)
+Definition r_head_validate (r : rstate) (sid : Z) (es : list exemplar) : list exemplar * list verr :=
+  fold_right (fun e acc => head_sort (r_validate r sid e) e acc) ([], []) es.
+Fixpoint r_head_commit (r : rstate) (sid : Z) (es : list exemplar) : res rstate :=
+  match es with
+  | [] => Ok r
+  | e :: t => '(r', _) <- r_add r sid e ;; r_head_commit r' sid t
+  end.
+Definition r_hstep (r : rstate) (h : hop) : res (rstate * obs) :=
+  match h with
+  | HPlain o => r_step r o
+  | HHead _ sid es =>
+      let '(p, errs) := r_head_validate r sid (map (fun x => without_empty (fst x) (snd x)) es) in
+      r' <- r_head_commit r sid p ;; Ok (r', BErrs errs)
+  end.
+Fixpoint r_hrun (r : rstate) (ops : list hop) : list obs :=
+  match ops with
+  | [] => []
+  | o :: t =>
+      match r_hstep r o with
+      | Ok (r', b) => b :: r_hrun r' t
+      | Panic => [BPanic]
+      | Fuel => [BHang]
+      | Stuck => [BStuck]
+      end
+  end.
+
+(* reference *)
+Definition sp_head_validate (k : wrule) (s : spec) (sid : Z) (es : list exemplar) : list exemplar * list verr :=
+  fold_right (fun e acc => head_sort (sp_validate k s sid e) e acc) ([], []) es.
+Definition sp_head_commit (k : wrule) (s : spec) (sid : Z) (es : list exemplar) : spec :=
+  fold_left (fun s e => fst (sp_add k s sid e)) es s.
+Definition sp_hstep (k : wrule) (s : spec) (h : hop) : spec * obs :=
+  match h with
+  | HPlain o => sp_step k s o
+  | HHead _ sid es =>
+      let '(p, errs) := sp_head_validate k s sid (map (fun x => without_empty (fst x) (snd x)) es) in
+      (sp_head_commit k s sid p, BErrs errs)
+  end.
+Fixpoint sp_hrun (k : wrule) (s : spec) (ops : list hop) : list obs :=
+  match ops with
+  | [] => []
+  | o :: t => let '(s', b) := sp_hstep k s o in b :: sp_hrun k s' t
+  end.
+
+Fixpoint sim_hrun (st : state) (r : rstate) (ops : list hop) : bool :=
+  wfb st && rstate_eqb (abs_ring st) r &&
+  match ops with
+  | [] => true
+  | o :: t =>
+      match hstep st o, r_hstep r o with
+      | Ok (st', _), Ok (r', _) => sim_hrun st' r' t
+      | Ok _, _ | _, Ok _ => false
+      | _, _ => true
+      end
+  end.
